@@ -31,6 +31,7 @@ func runC16(c *Ctx) {
 	ruleSymbolicIdentity(c, "R16.3")
 	ruleTimeOfRoundGuards(c, "R16.4")
 	ruleSecondsDomain(c, "R16.5")
+	ruleTickPairConsistent(c, "R16.6")
 }
 
 func isGenesisLike(o Origin) bool {
@@ -85,6 +86,23 @@ func ruleNoPrivateRoundMath(c *Ctx, rule string) {
 			c.Ok(rule, fnShort(fn)+" combines genesis time and period arithmetically", shortPos(c.P, in), false,
 				"round/time conversions outside common/time.go bypass its guards: use TimeOfRound / CurrentRound / NextRound")
 		})
+	}
+	// the same arithmetic spelled with time.Time: genesis.Add(k * period)
+	for _, fn := range c.P.SubjectFns() {
+		if isControlFn(fn) || strings.HasSuffix(c.P.Fset.Position(fn.Pos()).Filename, "common/time.go") {
+			continue
+		}
+		for _, ci := range callsIn(fn, func(ci ssa.CallInstruction) bool { return strings.HasSuffix(calleeName(ci), "time.Time).Add") }) {
+			a := callArgs(ci)
+			if len(a) < 2 {
+				continue
+			}
+			if hasOrigin(Origins(a[0]), isGenesisLike) && hasOrigin(Origins(a[1]), isPeriodLike) {
+				nOut++
+				c.Ok(rule, fnShort(fn)+" combines genesis time and period arithmetically", shortPos(c.P, ci), false,
+					"genesis.Add(n*period) is a private round-to-time conversion without TimeOfRound's overflow guards")
+			}
+		}
 	}
 	// positive control on every run: the rule must match common/time.go itself
 	c.Ok(rule, "rule matches the conversions inside common/time.go (positive control)", "-", nIn >= 2, fmt.Sprintf("%d combining operation(s) inside time.go, %d outside", nIn, nOut))
@@ -467,4 +485,59 @@ func ruleSecondsDomain(c *Ctx, rule string) {
 		c.Ok(rule, fnShort(fn)+" keeps now/genesis/round in integer seconds", c.P.Pos(fn.Pos()), bad == "",
 			ifStr(bad != "", "seconds-domain value passes through nanosecond time arithmetic ("+bad+"), which saturates after about 292 years"))
 	}
+}
+
+// R16.6: the (round, time) pair of a tick is computed from one clock reading: round = CurrentRound(t.Unix(), period,
+// genesis) and time = t.Unix() for the same t. Two readings can straddle a round boundary and give a round whose scheduled
+// time is not the tick's time.
+func ruleTickPairConsistent(c *Ctx, rule string) {
+	c.ranRules[rule] = true
+	tk := c.P.Fn("internal/chain/beacon.(*ticker).Start")
+	if !c.Anchor(rule, "internal/chain/beacon.(*ticker).Start", tk != nil) {
+		return
+	}
+	n := 0
+	for _, f := range withClosures(tk) {
+		for _, lit := range literalsOfType(f, "internal/chain/beacon.roundInfo") {
+			fields, ok := literalFields(lit)
+			if !ok || (fields["round"] == nil && fields["time"] == nil) {
+				continue // a copy of the literal (a variable it is assigned to), not the literal itself
+			}
+			n++
+			vals := func(os []Origin) map[ssa.Value]bool {
+				m := map[ssa.Value]bool{}
+				for _, o := range os {
+					if o.Kind == "const" {
+						continue // the zero initial value of the loop variables
+					}
+					m[o.Val] = true
+				}
+				return m
+			}
+			ro := Origins(fields["round"])
+			okRound := len(vals(ro)) > 0
+			var readings map[ssa.Value]bool
+			for _, o := range ro {
+				if o.Kind == "const" {
+					continue
+				}
+				call, isCall := o.Val.(*ssa.Call)
+				if o.Kind != "call" || !isCall || !strings.HasSuffix(o.Name, "common.CurrentRound") {
+					okRound = false
+					continue
+				}
+				readings = vals(Origins(call.Common().Args[0]))
+			}
+			to := vals(Origins(fields["time"]))
+			same := okRound && len(readings) > 0 && len(readings) == len(to)
+			for v := range readings {
+				if !to[v] {
+					same = false
+				}
+			}
+			c.Ok(rule, "a tick's round and time come from the same clock reading", shortPos(c.P, lit), same,
+				"round origins: "+strings.Join(originStrings(ro), ",")+"; time origins: "+strings.Join(originStrings(Origins(fields["time"])), ","))
+		}
+	}
+	c.Floor(rule, "roundInfo values built by the ticker", n, 1)
 }
